@@ -364,6 +364,12 @@ def install(E: Any) -> None:
         ty = obj.ty
         tty = TupleTy([ty.key, ty.val])
         iseq = SeqTy(tty)
+        if getattr(obj, "lit_items", None) is not None:
+            # a dict whose entries are known one by one (e.g. the dump of a record): its items are that literal list
+            elems = [V(self.pre.tup_mk(tty, [k.t, v.t]), tty) for k, v in obj.lit_items]
+            r = self.seq_lit(iseq, elems)
+            r.lit_elems = elems
+            return r
         f = self.pre.func(f"items_{ty.name}", self.sort(ty), self.sort(iseq))
         key = f"items.{ty.name}"
         if key not in self.pre._done:
@@ -388,7 +394,7 @@ def install(E: Any) -> None:
         if len(n.args) > 1:
             d = self.expr(n.args[1], st)
             if getattr(d, "empty_lit", False) and ty.val == ANY:
-                d = V(self.pre.fn.get("empty_Seq_str") or self.seq_empty(SeqTy(STR)).t, SeqTy(STR))
+                d = V(self.seq_empty(SeqTy(STR)).t, SeqTy(STR))
             d = self.coerce(d, ty.val)
             return V(z3.If(has(obj.t, k.t), get(obj.t, k.t), d.t), ty.val)
         oty = OptTy(ty.val)
